@@ -153,6 +153,30 @@ def eval_body(atoms, tid_of, db, small_only=True, new_since=None, head=None, inc
     positions already bound when the atom is reached."""
     vs = head if head is not None else gen.body_vars(atoms)
     res = set()
+    prim_atoms = [a for a in atoms if a.kind == "prim"]
+    atoms = [a for a in atoms if a.kind != "prim"]
+
+    def apply_prims(env):
+        for a in prim_atoms:
+            x, y = [(e[1] if e[0] == "c" else env[e[1]]) for e in a.args]
+            if a.name == "lt":
+                if not x < y:
+                    return None
+            elif a.name == "ne":
+                if x == y:
+                    return None
+            else:
+                r = a.ret
+                if r[0] == "c":
+                    if r[1] != x + y:
+                        return None
+                elif r[1] in env:
+                    if env[r[1]] != x + y:
+                        return None
+                else:
+                    env = dict(env)
+                    env[r[1]] = x + y
+        return env
     # static binding order: which entries of atom i are bound (constant or earlier variable) on arrival
     bound_vars = set()
     plans = []
@@ -181,7 +205,9 @@ def eval_body(atoms, tid_of, db, small_only=True, new_since=None, head=None, inc
     def rec(i, env, any_new):
         if i == len(atoms):
             if new_since is None or any_new:
-                res.add(tuple(env[v] for v in vs))
+                env = apply_prims(env)
+                if env is not None:
+                    res.add(tuple(env[v] for v in vs))
             return
         ents, bpos = plans[i]
         probe = tuple(ents[p][1] if ents[p][0] == "c" else env[ents[p][1]] for p in bpos)
@@ -264,12 +290,12 @@ def norm_plan_key(rule_rec, variants):
                                       rule_rec["sole_focus"]]).encode()).hexdigest()[:16]
 
 
-def variant_plan(cached, extra):
+def variant_plan(cached, extra, prims=None):
     """The plan `add_rule_from_cached_plan` builds: extra constraints pushed as headers, then the cached headers."""
     p = json.loads(json.dumps(cached["plan"]))
     hdr = [{"atom": e["atom"], "constraints": [e["c"]]} for e in extra]
     p["header"] = hdr + [{"atom": h["atom"], "constraints": h["constraints"]} for h in cached["plan"]["header"]]
-    return {"plan": p, "instrs": cached["instrs"], "used_vars": cached["used_vars"]}
+    return {"plan": p, "instrs": cached["instrs"], "used_vars": cached["used_vars"], "prims": prims}
 
 
 def strip_sizes(o):
@@ -295,6 +321,8 @@ class Validator:
     def tables(self, rows=R):
         ts = {}
         for a in self.atoms:
+            if a.kind == "prim":
+                continue
             tid = self.tid_of[a.name]
             if tid not in ts:
                 f = self.names[tid]
@@ -308,8 +336,12 @@ class Validator:
     def flat_source(self):
         fl = []
         for a in self.atoms:
-            fl.append({"table": self.tid_of[a.name], "args": a.args, "ret": a.ret})
+            if a.kind != "prim":
+                fl.append({"table": self.tid_of[a.name], "args": a.args, "ret": a.ret})
         return fl
+
+    def prims(self):
+        return [{"kind": a.name, "args": a.args, "ret": a.ret} for a in self.atoms if a.kind == "prim"]
 
     def check(self, s, timeout_ms=120000):
         s.set("timeout", timeout_ms)
@@ -329,7 +361,7 @@ class Validator:
         for t in tables.values():
             wf += t.wellformed(D, nts)
         wf += model.eqsort_wellformed(tables)
-        src = model.source_tuples(self.flat_source(), self.vs, tables, self.include_subsumed)
+        src = model.source_tuples(self.flat_source(), self.vs, tables, self.include_subsumed, self.prims())
         tup = [z3.Int("tup_%s" % v) for v in self.vs]
         in_all = z3.Or([z3.And(c, *[a == b for a, b in zip(t, tup)]) for c, t, _, _ in src])
         if rule_rec["seminaive"] and rule_rec["sole_focus"] is None:
@@ -350,7 +382,7 @@ class Validator:
         # variant_plan() reconstructs for the dropped ones (headers = extra ++ cached headers)
         vplans = []
         for v in variants:
-            vp = variant_plan(rule_rec["cached"], v["extra"])
+            vp = variant_plan(rule_rec["cached"], v["extra"], [p_["kind"] for p_ in self.prims()])
             if v["kept"] is not None:
                 real = kept_plans[v["kept"]]
                 if strip_sizes(real["plan"]) != strip_sizes(vp["plan"]) or real["instrs"] != vp["instrs"]:
@@ -454,6 +486,8 @@ class Validator:
         small = {}
         need = 1
         for a in self.atoms:
+            if a.kind == "prim":
+                continue
             tid = self.tid_of[a.name]
             small[tid] = [(k, v) for k, v in sorted(cdb.get(tid, {}).items(), key=repr) if all(gen.is_small(x) for x in k)]
             need = max(need, len(small[tid]))
@@ -480,7 +514,7 @@ class Validator:
         tup = [z3.Int("tup_%s" % v) for v in self.vs]
         alts = []
         for v in variants:
-            vp = variant_plan(rule_rec["cached"], v["extra"])
+            vp = variant_plan(rule_rec["cached"], v["extra"], [p_["kind"] for p_ in self.prims()])
             alts += model.plan_tuples(vp, tables, self.out_tid, nts, "select")
         in_plan = z3.Or([z3.And(c, *[a == b for a, b in zip(t, tup)]) for c, t in alts]) if alts else z3.BoolVal(False)
         s = z3.Solver()
@@ -510,7 +544,7 @@ def small_rows(atoms, rnd, max_rows=R):
     substitutions of the body (so that matches exist), padded with noise rows: name -> list of (key, val)"""
     sig = gen.signature(atoms)
     types = atoms.types
-    consts = [e[1] for a in atoms for e in a.args + ([a.ret] if a.ret else []) if e[0] == "c"]
+    consts = [e[1] for a in atoms if a.kind != "prim" for e in a.args + ([a.ret] if a.ret else []) if e[0] == "c"]
     pool = gen.ctor_pool(types, 0, D)
     db = {name: {} for name in sig}
 
@@ -530,7 +564,7 @@ def small_rows(atoms, rnd, max_rows=R):
             return theta[e[1]]
         rows = []
         ok = True
-        for a in [x for x in atoms if x.kind == "ctor"] + [x for x in atoms if x.kind != "ctor"]:
+        for a in [x for x in atoms if x.kind == "ctor"] + [x for x in atoms if x.kind not in ("ctor", "prim")]:
             at, rt = types[a.name]
             key = tuple(val_of(e, t) for e, t in zip(a.args, at))
             val = None
